@@ -57,7 +57,7 @@ from pybrops.popgen.gmap.HaldaneMapFunction import HaldaneMapFunction
 from pybrops.core.random import sampling as _sampling  # noqa: F401
 
 PROP = "C07"
-RUNS = {"quick": 10000, "thorough": 500000}
+RUNS = {"quick": 20000, "thorough": 500000}
 WALL = {"quick": 240, "thorough": 2700}
 RUN_TIMEOUT = 180
 RULE = ("scenario = protocol family (ebv, gebv, random, ocs, ohv, uc, wgs, gwgebv, febv, meh, mgr, pafd, pau, opv, embv, mogs, gb) x decision encoding (subset/real/integer/binary; mate-selection for ohv/uc), "
